@@ -251,6 +251,7 @@ def zoo_db(path, page_size, rnd, n=120):
     # identifiers spelled differently in the definition, in the constraints and in the indexes
     con.execute('CREATE TABLE Z9(Alpha TEXT, beta, "Gamma" INT, Delta, PRIMARY KEY(GAMMA, alpha)) WITHOUT ROWID')
     con.execute("CREATE INDEX Z9d ON z9(DELTA, Beta)")
+    con.execute("CREATE INDEX Z9g ON Z9(beta, gamma)")          # names a primary key column, spelled in another case
     con.execute("CREATE TABLE z10(Name TEXT PRIMARY KEY, Val, UNIQUE(VAL, name)) WITHOUT ROWID")
     con.execute("CREATE TABLE Z12(Id INTEGER PRIMARY KEY, Name TEXT UNIQUE, vAL)")
     con.execute("CREATE INDEX z12v ON Z12(Val, NAME)")
@@ -268,6 +269,9 @@ def zoo_db(path, page_size, rnd, n=120):
     # a column that is PRIMARY KEY and UNIQUE at once (one automatic index), followed by further UNIQUE constraints
     con.execute("CREATE TABLE z15(a TEXT PRIMARY KEY UNIQUE, b UNIQUE, c, UNIQUE(c, a))")
     con.execute("CREATE TABLE z16(a TEXT PRIMARY KEY UNIQUE, b UNIQUE, c) WITHOUT ROWID")
+    # a composite PRIMARY KEY of a rowid table whose first column is INTEGER (no rowid alias: the values are stored)
+    con.execute("CREATE TABLE z18(shop INTEGER, item TEXT, qty, PRIMARY KEY(shop, item))")
+    con.execute("CREATE TABLE z19(n INTEGER, m INTEGER, PRIMARY KEY(n DESC, m)) WITHOUT ROWID")
     # a table-level PRIMARY KEY that repeats an earlier UNIQUE constraint, with another UNIQUE after it
     con.execute("CREATE TABLE z17(a TEXT UNIQUE, b TEXT, c, PRIMARY KEY(a), UNIQUE(b))")
     npool = TEXTPOOL[:12] + ["z", "Z", "zz", "ZZ", "Zz", "azure", "AZURE", "cRaZy", "crazy", "[", "`", "@", "{"]
@@ -278,6 +282,8 @@ def zoo_db(path, page_size, rnd, n=120):
         con.execute("INSERT OR IGNORE INTO z15 VALUES(?,?,?)", ("k%03d" % (i * 7 % 101), i * 3, i % 11))
         con.execute("INSERT OR IGNORE INTO z16 VALUES(?,?,?)", (rnd.choice(npool) + str(i % 13), i * 5 - 40, i % 4))
         con.execute("INSERT OR IGNORE INTO z17 VALUES(?,?,?)", ("a%03d" % (i * 5 % 97), "b%03d" % (i * 11 % 89), i % 6))
+        con.execute("INSERT OR IGNORE INTO z18 VALUES(?,?,?)", ([70, 12, -3, 2 ** 40][i % 4], "it%d" % (i % 17), i))
+        con.execute("INSERT OR IGNORE INTO z19 VALUES(?,?)", (i % 7, i))
         con.execute("INSERT OR IGNORE INTO Z9 VALUES(?,?,?,?)", (rnd.choice(TEXTPOOL) + str(i % 7), i, i // 3, rnd.choice([None, i % 5, "d"])))
         con.execute("INSERT OR IGNORE INTO z10 VALUES(?,?)", (rnd.choice(TEXTPOOL) + str(i), i % 6))
         con.execute("INSERT OR IGNORE INTO Z12 VALUES(?,?,?)", (i * 3 - 20, rnd.choice(TEXTPOOL) + str(i), i % 4))
